@@ -72,6 +72,9 @@ DETS = {
                                                          count_ubound=2, alpha=0.3)),
     "PCACD": dict(fam="sx", kind="KStream", L=26,
                   mk=lambda: PCACD(window_size=8, sample_period=0.25, divergence_metric="intersection", delta=0.01)),
+    "PCACDraw": dict(fam="sx", kind="KStream", L=26,
+                     mk=lambda: PCACD(window_size=8, sample_period=0.25, divergence_metric="intersection", delta=0.01,
+                                      online_scaling=False)),
     "ADWINAccuracy": dict(fam="sy", kind="KStreamUni", L=16,
                           mk=lambda: ADWINAccuracy(delta=0.9, new_sample_thresh=2, window_size_thresh=4,
                                                    subwindow_size_thresh=2)),
@@ -675,7 +678,7 @@ def base_history(name, d, rng):
     info = DETS[name]
     L = info["L"]
     if info["fam"] == "sx":
-        shift = L // 2 if name != "PCACD" else 18
+        shift = L // 2 if not name.startswith("PCACD") else 18
         return [[rnd(rng.gauss(0 if i < shift else 9, 1)) for _ in range(d)] for i in range(L)]
     if info["fam"] == "sy":
         out = []
@@ -922,11 +925,11 @@ def gen_cases(ctx):
         st[key][k] = st[key].get(k, 0) + 1
     for name, info in DETS.items():
         fam = info["fam"]
-        heavy = name in ("PCACD", "KdqTreeBatch", "KdqTreeStreaming")
+        heavy = name in ("PCACD", "PCACDraw", "KdqTreeBatch", "KdqTreeStreaming")
         n_hist = ctx.scale(1, 2 if heavy else 3)
         dims = [1] if is_uni(name) or fam == "sy" else \
             ctx.scale([1, 2] if name in ("HDDDM2", "NNDVI") else [2],
-                      [2, 3] if name == "PCACD" else [1, 2] if heavy else [1, 2, 3])
+                      [2, 3] if name.startswith("PCACD") else [1, 2] if heavy else [1, 2, 3])
         for d in dims:
             for hno in range(n_hist):
                 seed = rng.randrange(1, 10 ** 6)
@@ -951,7 +954,7 @@ def gen_cases(ctx):
                 for tag, plan, names in inj_plans:
                     calls = make_calls(name, hist, plan, names)
                     positions = list(range(L + 1))
-                    if name == "PCACD" and not ctx.thorough:
+                    if name.startswith("PCACD") and not ctx.thorough:
                         positions = sorted(set([0, 1, 7, 8, 9, 16, 17, 20, 21, 22, 23, L]))
                     kinds = ["ymulti"] if fam == "sy" else ["rows", "width", "renamed"] + (["multicol"] if is_uni(name) else []) \
                         + (["ref2"] if info.get("hdm1") else [])
